@@ -326,6 +326,17 @@ Theorem C03_code_shape_today :
 Proof. repeat split; reflexivity. Qed.
 Print Assumptions C03_code_shape_today.
 
+(** "an error if and only if no certificate is available" (any policy): the lookup fails only when
+    nothing matched and either the requested name is unusable (its IDNA conversion fails, or it does
+    not qualify) or neither the default name (no SNI) nor the fallback name yields a certificate and
+    none can be loaded from storage; the converse direction is C03_error_only_if_unlisted /
+    C03_unqualified_name_refused *)
+Theorem C03_error_only_if_nothing_available : forall lower is_space c post,
+  lookup_x lower is_space (self c) (l_conn c) (l_state c) (l_cap c) (l_cfg c) (l_sni c) (l_ip c) (l_envx c) = (RErr, post) ->
+  error_ok lower is_space c = true.
+Proof. exact error_ok_model. Qed.
+Print Assumptions C03_error_only_if_nothing_available.
+
 (** translator tie, GetCertificateWithContext: the event handler's veto returns an error first; the
     TLS-ALPN test is "server name given, exactly one ALPN protocol, and it is acme-tls/1"; otherwise
     getCertDuringHandshake with loading enabled, whose certificate and error are returned as they are *)
